@@ -31,7 +31,6 @@ Proof. exact mixed_refused. Qed.
 Print Assumptions c10_mixed_refused.
 
 Theorem c10_refused_unchanged : forall s o s' e,
-  (match o with PSet _ _ | PExtend _ _ | DGet _ | DDel _ | CreateSub _ | PCreateTy _ _ => True | _ => False end) ->
   vstep s o = (s', [2; e]) -> s' = s.
 Proof. exact refused_unchanged. Qed.
 Print Assumptions c10_refused_unchanged.
